@@ -133,7 +133,11 @@ def tlc(module, cfg=None, workers=4, timeout=600, simulate=None, depth=None, see
     if deque:
         jopts.append("-Dtlc2.tool.queue.IStateQueue=StateDeque")
     cmd = ["java"] + jopts + ["-cp", TLAJAR, "tlc2.TLC", "-metadir", meta, "-cleanup",
-                              "-noGenerateSpecTE", "-workers", str(workers)]
+                              "-noGenerateSpecTE", "-workers", str(workers),
+                              # TLC checkpoints every 30 minutes and the depth-first queue cannot be checkpointed ("StateDeque
+                              # does not support checkpointing" aborted a 31-minute judge shard of C01's thorough tier);
+                              # no run here is ever resumed
+                              "-checkpoint", "0"]
     if cfg:
         cmd += ["-config", cfg if cfg.endswith(".cfg") else cfg + ".cfg"]
     if simulate:
